@@ -15,7 +15,7 @@ PROP = dict(
                "against the decoder on unmutated encodings). Seeds hold 1-3 containers (so the official run-cookie form never carries an offset header). In the in-process roaring checks the payload ends exactly at an inaccessible guard page (debug.SetPanicOnFault), so reads past the end made through unsafe pointers are caught too. "
                "Recovered panics of the HTTP request goroutine (500 'PANIC:') count as rejections by the statement and are only counted in the evidence. "
                "After an accepted cluster message only liveness is judged (a well-formed message may legitimately change the node's cluster state); the child is replaced whenever it no longer reports a one-node NORMAL cluster. "
-               "Hangs are detected with generous timeouts (40 s per request, 60 s per parse) on operations that take milliseconds. Native go fuzzing is not wired into the driver.",
+               "Hangs are detected with generous timeouts (40 s per request, 60 s per parse) on operations that take milliseconds. A native go fuzz target on both roaring decoders runs in the thorough tier (120 s, 8 workers) with the same oracles; it contributes no evidence counts.",
     rule="server: one request per case, entry point import|query|message (3:2:1); distinct = hash of path+body; non-trivial = the request passed the first validation: "
          "import accepted or rejected by a container/offset check, query text that parses (or a recovered panic), message decoded and handed to receiveMessage. "
          "roaring/stored companions: non-trivial = accepted, or >= 8 bytes (past the magic/length check). parse: non-trivial = accepted, panicked, or rejected after the first symbol. "
@@ -31,6 +31,7 @@ PROP = dict(
         U("message", "./server", "^TestVerifC06_ClusterMessage$", 1500, 30000, sq=1, sth=3, timeout={"quick": 600, "thorough": 3000}),
         U("roaring-unmarshal", "./roaring", "^TestVerifC06_UnmarshalBinary$", 8000, 240000, sq=2, sth=6),
         U("roaring-import", "./roaring", "^TestVerifC06_ImportRoaringBits$", 6000, 160000, sq=3, sth=8),
+        U("fuzzroaring", "./roaring", "^$", 0, 0, sq=1, sth=1, fuzz="FuzzVerifC06Roaring", fuzztime={"thorough": 120}, fuzzprocs=8, tiers=["thorough"], rapid=False),
         U("parse", "./pql", "^TestVerifC06_ParseString$", 6000, 120000, sq=2, sth=4),
         U("fragimport", ".", "^TestVerifC06_FragmentImport$", 1500, 40000, sq=2, sth=6),
         U("stored", ".", "^TestVerifC06_StoredFragment$", 2400, 60000, sq=2, sth=6),
